@@ -58,7 +58,7 @@ def plan(tier):
     p.append(("feedback", n // 2))
     p.append(("big", 40 if tier == "quick" else 1500))
     p.append(("nested", 40000 if tier == "quick" else 1200000))
-    p.append(("remerge", 25000 if tier == "quick" else 1500000))
+    p.append(("remerge", 25000 if tier == "quick" else 600000))
     return p
 
 
